@@ -10,6 +10,7 @@
 -/
 import IcingaProofs.C07.Cycle
 import IcingaProofs.C07.Registry
+import IcingaProofs.C07.History
 
 namespace Icinga.C07
 
@@ -256,6 +257,73 @@ theorem terminates_on_accepted (g : Graph) (new : List Dep) (bound : Nat)
   · show min (r v) _ < _; omega
   · show min (r v) _ < _; omega
 
+/-! ## whole histories -/
+
+/-- **history_step_meets_spec** — in every state a history can reach (`HInv`: registered graph acyclic,
+    reverse-dependency container mirroring the live set) the observation the model produces for ANY next
+    operation — a load or runtime creation (accepted or refused), a removal, a state or period change, a
+    query of all three aspects, a read-out of parents / children / reverse dependencies — satisfies the
+    specification predicate the driver evaluates on the implementation's observation of that step. -/
+theorem history_step_meets_spec (n : Nat) (hs : HState) (hi : HInv hs) (op : HOp) :
+    specObs n hs.cfg (hstep n hs op).2 = none := by
+  cases op with
+  | load batch =>
+    rw [hstep_load_obs]
+    simp only [specObs]
+    have := model_runtime_add_meets_spec n hs.cfg.graph (batch.map (·.2)) hi.acyclic
+    exact this
+  | remove id => simp only [hstep, specObs]
+  | setState v ck r h => simp only [hstep, specObs]
+  | setPeriod p cl => simp only [hstep, specObs]
+  | query =>
+    simp only [hstep, specObs]
+    split
+    · next h =>
+      obtain ⟨rank, hr, hd⟩ := inScope_certificate n hs.cfg.graph h
+      exact model_query_meets_spec n hs.cfg.graph rank hr hd
+    · rfl
+  | edges => exact model_edges_meet_spec n hs hi
+
+/-- **history_meets_spec** — the whole-trace theorem: for every set of checkables (services' hosts being
+    hosts) and EVERY sequence of operations starting from the empty configuration — loads and runtime
+    creations of arbitrary batches (cyclic ones are refused by the model's cycle checker), removals, state
+    changes, period changes, queries, edge read-outs, in any order and number — the specification predicate
+    evaluated over the recorded history finds no violated clause: every accepted load leaves the graph
+    acyclic, every refused one leaves it unchanged, every query inside the property's scope answers the
+    "reachable exactly when" equation for all three aspects on the live set, and parents / children /
+    reverse dependencies equal the live set.  No hypothesis on the reached graph: acyclicity is an
+    invariant established by the cycle checker itself. -/
+theorem history_meets_spec (n : Nat) (node : Nat → Node)
+    (hw : WellFormed { node := node, deps := [] }) (ops : List HOp) :
+    specTrace n { node := node } (hrun n { cfg := { node := node } } ops) = none := by
+  have key : ∀ (ops : List HOp) (hs : HState), HInv hs → specTrace n hs.cfg (hrun n hs ops) = none := by
+    intro ops
+    induction ops with
+    | nil => intro hs _; rfl
+    | cons op ops ih =>
+      intro hs hi
+      simp only [hrun, specTrace, history_step_meets_spec n hs hi op]
+      rw [← hstep_cfg]
+      exact ih _ (hstep_inv n hs op hi)
+  exact key ops _ (hinv_init node hw)
+
+/-- **history_stays_acyclic** — after every history the registered graph, together with the implicit
+    service → host edges, contains no cycle (so `IsReachable` terminates without its limit,
+    `terminates_on_accepted`), and the reverse-dependency container holds exactly the live dependencies. -/
+theorem history_stays_acyclic (n : Nat) (node : Nat → Node)
+    (hw : WellFormed { node := node, deps := [] }) (ops : List HOp) :
+    let final := ops.foldl (fun hs op => (hstep n hs op).1) ({ cfg := { node := node } } : HState)
+    (∀ v, ¬ Path (succs final.cfg.graph) v v) ∧ final.rev = final.cfg.live.map (fun x => (x.2.parent, x)) := by
+  have key : ∀ (ops : List HOp) (hs : HState), HInv hs →
+      HInv (ops.foldl (fun hs op => (hstep n hs op).1) hs) := by
+    intro ops
+    induction ops with
+    | nil => intro hs hi; exact hi
+    | cons op ops ih => intro hs hi; exact ih _ (hstep_inv n hs op hi)
+  have hi := key ops _ (hinv_init node hw)
+  obtain ⟨r, hr⟩ := hi.acyclic
+  exact ⟨fun v => ranked_no_cycle hr v, hi.rev⟩
+
 /-! ## runtime additions/removals leave the registry equal to a fresh load -/
 
 /-- **registry_refines_set** — for every sequence of runtime `AddDependency`/`RemoveDependency` calls
@@ -439,5 +507,58 @@ set_option maxRecDepth 20000 in
 example : isReachable { exG with deps := [exDep 0 1 none true, exDep 1 0 none true] } .checkExec 0 = false := by decide
 
 end Examples
+
+/-! ## non-vacuity of the history theorems -/
+
+section HistoryExamples
+
+def hxDep (c p : Nat) (grp : Option String) (per : Option Nat) : Dep :=
+  { child := c, parent := p, group := grp, stateFilter := 16, ignoreSoft := false, periodClosed := false,
+    disableChecks := true, disableNotifications := true, period := per }
+
+/-- hosts 0, 1, 3 and the service 2 of host 0.  Loaded: 2 → 1 (plain, period 0) and 3 → 1 in group "g"; then a
+    runtime creation 0 → 2 that closes a cycle through the implicit edge 2 ~> 0 (refused), host 1 goes hard
+    Down, period 0 closes, the first dependency is removed. -/
+def hxOps : List HOp :=
+  [.load [(0, hxDep 2 1 none (some 0)), (1, hxDep 3 1 (some "g") none)], .edges, .query,
+   .load [(2, hxDep 0 2 none none)], .edges,
+   .setState 1 true 2 true, .query, .setPeriod 0 true, .query, .remove 0, .edges, .query]
+
+def hxInit : HState := { cfg := { node := exNode } }
+
+-- the hypothesis of `history_meets_spec` holds
+example : WellFormed { node := exNode, deps := [] } := by
+  intro v h h1 h2
+  match v with
+  | 0 | 1 | (n + 3) => simp [exNode] at h1
+  | 2 => simp [exNode] at h2; subst h2; rfl
+
+-- what the history does: the cyclic creation is refused, the Down parent makes both children unreachable,
+-- closing the period frees the service again, the removal leaves one reverse dependency on host 1
+example : (hrun 4 hxInit hxOps).filterMap (fun o => match o with | .load _ acc _ => some acc | _ => none) = [true, false] := by
+  decide
+example : ((hxOps.take 7).foldl (fun hs op => (hstep 4 hs op).1) hxInit).cfg.graph.deps.length = 2 := by decide
+example : (Aspect.all.map (fun dt => isReachable ((hxOps.take 7).foldl (fun hs op => (hstep 4 hs op).1) hxInit).cfg.graph dt 2))
+    = [false, false, false] := by decide
+example : isReachable ((hxOps.take 9).foldl (fun hs op => (hstep 4 hs op).1) hxInit).cfg.graph .state 2 = true := by decide
+example : (hxOps.foldl (fun hs op => (hstep 4 hs op).1) hxInit).reverse 1 = [1] := by decide
+example : (hxOps.foldl (fun hs op => (hstep 4 hs op).1) hxInit).children 1 = [3] := by decide
+-- the specification rejects wrong histories: a stale reverse dependency after the removal …
+example : specEdges 4 [(1, hxDep 3 1 (some "g") none)] (fun v => if v = 3 then [1] else [])
+    (fun v => if v = 1 then [3] else []) (fun v => if v = 1 then [0, 1] else []) = some .edges := by decide
+-- … a missing parent …
+example : specEdges 4 [(1, hxDep 3 1 (some "g") none)] (fun _ => [])
+    (fun v => if v = 1 then [3] else []) (fun v => if v = 1 then [1] else []) = some .edges := by decide
+-- … an accepted cyclic creation, and a refused one that nevertheless left its dependency behind
+example : specObs 4 ((hxOps.take 3).foldl (fun hs op => (hstep 4 hs op).1) hxInit).cfg
+    (.load [(2, hxDep 0 2 none none)] true (fun _ => 0)) = some .cycleRejected := by decide
+example : specObs 4 ((hxOps.take 3).foldl (fun hs op => (hstep 4 hs op).1) hxInit).cfg
+    (.load [(2, hxDep 0 2 none none)] false (fun v => if v = 0 then 1 else if v = 2 then 1 else if v = 3 then 1 else 0))
+    = some .refusedUnchanged := by decide
+-- and the correct observations pass
+example : specEdges 4 [(1, hxDep 3 1 (some "g") none)] (fun v => if v = 3 then [1] else [])
+    (fun v => if v = 1 then [3] else []) (fun v => if v = 1 then [1] else []) = none := by decide
+
+end HistoryExamples
 
 end Icinga.C07
